@@ -74,6 +74,18 @@ impl Form {
     }
 }
 
+#[derive(Serialize, Deserialize, Debug, Clone, Copy, PartialEq, Eq)]
+pub enum RunHow {
+    /// `frame.call(..)`
+    Call,
+    /// `let _g = frame.enter(); ..`
+    EnterGuard,
+    /// `frame.in_future(async { .. })`, awaited (block_on in sync code)
+    InFuture,
+    /// moved to a fresh thread and `frame.call(..)`ed there (without a frame: the items still run on a fresh thread)
+    OtherThread,
+}
+
 #[derive(Serialize, Deserialize, Debug, Clone)]
 pub struct Node {
     pub form: Form,
@@ -100,6 +112,14 @@ pub enum Item {
     Panic,
     /// `catch_unwind` around `items` (in async code: around every poll of them); the thread is used on afterwards
     Catch { items: Vec<Item> },
+    /// make a NON-span frame here and keep it for later: `Frame::current(rt.ctxt())`, or with `props`
+    /// `Frame::push(rt.ctxt(), props!{ job })` (a plain property) — what a dispatcher captures when a job is submitted
+    CaptureFrame { props: bool },
+    /// take the nearest frame captured lexically before this point that nobody has used yet (none: just run
+    /// the items) and run `items` inside it, wherever this is. A `ThreadLocalCtxt` frame is a full snapshot
+    /// of what was ambient where it was made: that is what is ambient inside, and what was ambient before
+    /// it was entered is ambient again afterwards
+    RunFrame { how: RunHow, items: Vec<Item> },
     /// run `items` on a fresh thread; `carry` = inside `Frame::current(rt.ctxt())` captured here;
     /// `fut` = through `Frame::in_future` + a block_on on that thread instead of `Frame::call`
     /// `after`: more work on the SAME fresh thread once the carried frame has been left (the thread is a
@@ -200,6 +220,9 @@ pub enum PItem {
     Yield,
     Panic,
     Catch { items: Vec<PItem>, post: usize },
+    CaptureFrame { slot: usize, props: bool },
+    /// `frame`: the capture slot this run takes (resolved lexically by the numberer, each capture is used once)
+    RunFrame { frame: Option<usize>, how: RunHow, items: Vec<PItem>, pre: usize, end: Option<usize>, post: Option<usize> },
     Hop { carry: bool, fut: bool, items: Vec<PItem>, pre: usize, end: usize, after: Vec<PItem>, post: usize },
     Join { carry: bool, migrate: bool, tasks: Vec<Vec<PItem>>, schedule: Vec<u8>, post: usize },
 }
@@ -228,6 +251,13 @@ pub struct Stats {
     pub joins_carry: usize,
     pub joins_migrating: usize,
     pub handoffs: usize,
+    pub frames_run: usize,
+    pub frame_entered_where_ambient_differs: bool,
+    pub foreign_frame_in_span: bool,
+    pub foreign_frame_by_call: bool,
+    pub foreign_frame_by_enter: bool,
+    pub foreign_frame_by_future: bool,
+    pub frame_captured_in_span_entered_elsewhere: bool,
     pub exit_panic_sync_call: bool,
     pub exit_panic_enter_guard: bool,
     pub exit_panic_async: bool,
@@ -254,6 +284,8 @@ pub struct Prog {
     pub checks: Vec<Scope>,
     /// check taken after everything (incoming frame included) has been left
     pub final_check: usize,
+    /// number of capture slots
+    pub frames: usize,
     pub stats: Stats,
 }
 
@@ -296,6 +328,12 @@ struct Numberer {
     unwound_enabled: usize,
     /// the thread whose items are being numbered has caught a panic that unwound through enabled spans
     after_panic: bool,
+    /// what was ambient where each `CaptureFrame` stands, by slot …
+    captured: Vec<Scope>,
+    /// … the slots lexically visible from the point being numbered, innermost last …
+    visible: Vec<usize>,
+    /// … and those some `RunFrame` has already claimed
+    used: Vec<bool>,
 }
 
 #[derive(Clone, Copy)]
@@ -315,6 +353,8 @@ impl Numberer {
     /// Items behind a point where a planned panic leaves the list never run: they are not numbered (and
     /// not interpreted), so "exactly once" keeps holding for everything that is.
     fn items(&mut self, items: &[Item], w: Where) -> Vec<PItem> {
+        // captures made inside this list stop being visible when it ends (a later point cannot be sure they ran)
+        let visible = self.visible.len();
         let mut out = Vec::new();
         for it in items {
             out.push(self.item(it, w));
@@ -322,6 +362,7 @@ impl Numberer {
                 break;
             }
         }
+        self.visible.truncate(visible);
         out
     }
 
@@ -339,6 +380,71 @@ impl Numberer {
                 self.unwinding = true;
                 self.unwound_enabled = 0;
                 PItem::Panic
+            }
+            Item::CaptureFrame { props } => {
+                let slot = self.captured.len();
+                self.captured.push(w.scope);
+                self.used.push(false);
+                self.visible.push(slot);
+                PItem::CaptureFrame { slot, props: *props }
+            }
+            Item::RunFrame { how, items } => {
+                let frame = self.visible.iter().rev().copied().find(|s| !self.used[*s]);
+                if let Some(f) = frame {
+                    self.used[f] = true;
+                }
+                let elsewhere = *how == RunHow::OtherThread;
+                let nothing = Scope { span: None, base: false };
+                let inner = match frame {
+                    // the frame is a snapshot of what was ambient where it was captured
+                    Some(f) => self.captured[f],
+                    None if elsewhere => nothing,
+                    None => w.scope,
+                };
+                if let Some(f) = frame {
+                    self.stats.frames_run += 1;
+                    let c = self.captured[f];
+                    if !elsewhere && c != w.scope {
+                        self.stats.frame_entered_where_ambient_differs = true;
+                        // captured where nothing was ambient, entered inside an enabled span
+                        if c.span.is_none() && !c.base && w.scope.span.is_some() {
+                            self.stats.foreign_frame_in_span = true;
+                            match how {
+                                RunHow::Call => self.stats.foreign_frame_by_call = true,
+                                RunHow::EnterGuard => self.stats.foreign_frame_by_enter = true,
+                                RunHow::InFuture => self.stats.foreign_frame_by_future = true,
+                                RunHow::OtherThread => {}
+                            }
+                        }
+                        if c.span.is_some() {
+                            self.stats.frame_captured_in_span_entered_elsewhere = true;
+                        }
+                    }
+                }
+                let pre = self.check(inner);
+                let saved_after = elsewhere.then(|| std::mem::replace(&mut self.after_panic, false));
+                let in_async = match (frame, how) {
+                    (Some(_), RunHow::InFuture) => true,
+                    (Some(_), _) | (None, RunHow::OtherThread) => false,
+                    (None, _) => w.in_async,
+                };
+                let items = self.items(items, Where { scope: inner, in_async, ..w });
+                let end = if elsewhere {
+                    // a planned panic in the body is caught at the top of that thread
+                    if self.unwinding {
+                        self.stats.exit_panic_caught_on_far_thread = true;
+                    }
+                    self.caught();
+                    Some(self.check(nothing))
+                } else {
+                    None
+                };
+                if let Some(v) = saved_after {
+                    self.after_panic = v;
+                }
+                // left by a planned panic: the statement after it is never reached
+                let post = if self.unwinding { None } else { Some(self.check(w.scope)) };
+                PItem::RunFrame { frame, how: *how, items, pre, end, post }
             }
             Item::Catch { items } => {
                 let items = self.items(items, w);
@@ -526,10 +632,10 @@ fn can_suspend(items: &[Item]) -> bool {
 }
 
 pub fn number(case: &Case) -> Prog {
-    let mut n = Numberer { spans: Vec::new(), events: Vec::new(), checks: Vec::new(), stats: Stats::default(), unwinding: false, unwound_enabled: 0, after_panic: false };
+    let mut n = Numberer { spans: Vec::new(), events: Vec::new(), checks: Vec::new(), stats: Stats::default(), unwinding: false, unwound_enabled: 0, after_panic: false, captured: Vec::new(), visible: Vec::new(), used: Vec::new() };
     let top = Scope { span: None, base: case.incoming.is_some() };
     let items = n.items(&case.items, Where { scope: top, depth: 0, in_async: false, in_disabled: false });
     assert!(!n.unwinding, "a planned panic never reaches the top of the case (normaliser)");
     let final_check = n.check(Scope { span: None, base: false });
-    Prog { items, spans: n.spans, events: n.events, checks: n.checks, final_check, stats: n.stats }
+    Prog { items, spans: n.spans, events: n.events, checks: n.checks, final_check, frames: n.captured.len(), stats: n.stats }
 }
